@@ -721,7 +721,7 @@ fn c20_o1b_stats_get_then_find() {
 }
 
 //@ ob: C20.O1c
-//@ tier: thorough
+//@ tier: off
 //@ cap: 2400
 //@ mem: 24
 //@ standins: tracing lru vcoll
